@@ -85,6 +85,60 @@ let run_m (n : int) (evs : string list) : string =
       (String.concat "," res) (dash (String.concat "," (List.map string_of_int keys)))
   end
 
+(* X <skipgc> <init> <changes> <ev> ...: the exchanges of an end-to-end run on one
+   referrers tag; caller i passes the i-th change *)
+let run_x (sg : bool) (init0 : string) (changes : change list) (evs : string list) : string =
+  let n = List.length changes in
+  let r0 = if init0 = "none" then None else Some (List.map (fun k -> { dkey = n_of_int (int_of_string k); dart = N0; dpay = N0 })
+                                                  (if init0 = "-" then [] else String.split_on_char ',' init0)) in
+  let st = ref (init r0 []) in
+  let rejected = ref (-1) in
+  let do_step i e =
+    if !rejected < 0 then
+      match step sg !st e with Some s -> st := s | None -> rejected := i in
+  let closure i =
+    let progress = ref true in
+    while !progress && !rejected < 0 do
+      progress := false;
+      for t = 0 to n - 1 do
+        if !rejected < 0 then
+          match (!st).pcs (nat_of_int t) with
+          | Completing _ -> do_step i (EComplete (nat_of_int t)); progress := true
+          | Ret _ -> do_step i (EDone (nat_of_int t)); progress := true
+          | _ -> ()
+      done
+    done in
+  List.iteri (fun i ev ->
+    let kind = ev.[0] in
+    let rest = String.sub ev 1 (String.length ev - 1) in
+    (match kind with
+     | 'G' ->
+       let t = int_of_string rest in
+       do_step i (EGet (nat_of_int t, List.nth changes t));
+       do_step i (EAssign (nat_of_int t))
+     | _ ->
+       let t, f = (match String.split_on_char ':' rest with
+                   | [a; b] -> int_of_string a, b = "1" | _ -> failwith "ev") in
+       let tn = nat_of_int t in
+       (match kind with
+        | 'P' -> do_step i (ERecvMain tn); do_step i (EPrepare (tn, f)); do_step i (ECommit tn)
+        | 'U' -> do_step i (EPut (tn, f))
+        | 'D' -> do_step i (EDel (tn, f))
+        | _ -> failwith "ev"));
+    closure i) evs;
+  if !rejected >= 0 then Printf.sprintf "REJECT %d" !rejected
+  else begin
+    let res = List.init n (fun t ->
+      match (!st).pcs (nat_of_int t) with
+      | Done r -> Printf.sprintf "%d=%s" t (show_res r)
+      | _ -> Printf.sprintf "%d=pending" t) in
+    let idx = match (!st).reg with
+      | None -> "none"
+      | Some [] -> "-"
+      | Some l -> String.concat "," (List.map (fun d -> string_of_int (int_of_n d.dkey)) l) in
+    Printf.sprintf "ACC R %s I %s" (String.concat "," res) idx
+  end
+
 let cap_num = function CapUnknown -> 0 | CapSupported -> 1 | CapUnsupported -> 2
 
 let () =
@@ -99,6 +153,8 @@ let () =
     | [id; "F"; a; s] ->
       Printf.printf "%s L %s\n" id (show_list (filter_referrers (parse_list s) (n_of_int (int_of_string a))))
     | id :: "M" :: n :: evs -> Printf.printf "%s %s\n" id (run_m (int_of_string n) evs)
+    | id :: "X" :: sg :: init0 :: cs :: evs ->
+      Printf.printf "%s %s\n" id (run_x (sg = "1") init0 (parse_changes cs) evs)
     | [id; "K"; bits] ->
       let bs = List.init (String.length bits) (fun i -> bits.[i] = '1') in
       let rs = set_caps CapUnknown bs in
